@@ -523,9 +523,9 @@ func genL2Script(rt *rapid.T) []c18Op {
 	var s []c18Op
 	n := rapid.IntRange(15, 50).Draw(rt, "len")
 	for i := 0; i < n; i++ {
-		k := drawWeighted(rt, "op", []weighted{{"add", 5}, {"remove", 4}, {"block", 5}, {"deposit", 5}, {"withdraw", 3}, {"oracle", 3}, {"plan", 2}, {"params", 1}, {"hostvals", 1}, {"oracle-late", 2}})
+		k := drawWeighted(rt, "op", []weighted{{"add", 5}, {"remove", 4}, {"block", 5}, {"deposit", 5}, {"withdraw", 3}, {"oracle", 3}, {"plan", 2}, {"params", 1}, {"hostvals", 1}, {"oracle-late", 3}})
 		op := c18Op{Kind: k, A: rapid.IntRange(0, 11).Draw(rt, "a"), B: rapid.IntRange(0, 11).Draw(rt, "b"), C: int64(rapid.IntRange(0, 1000).Draw(rt, "c"))}
-		if k == "oracle" && rapid.IntRange(0, 3).Draw(rt, "hold") == 0 {
+		if k == "oracle" && rapid.IntRange(0, 2).Draw(rt, "hold") == 0 {
 			op.S = "hold"
 		}
 		if k == "deposit" && rapid.IntRange(0, 3).Draw(rt, "hook") == 0 {
@@ -599,6 +599,12 @@ func TestC18Rapid(t *testing.T) {
 			c18Compare(rt, "L1", script, traces)
 			c18Digest("L1", traces[0])
 			c.Class("L1")
+			for _, op := range script {
+				if op.Kind == "create" && op.S == "channels-many" {
+					c.Class("L1/bridge-listing-several-channels")
+					break
+				}
+			}
 			if bridges >= 2 {
 				c.NonTrivial()
 				c.Shape(fmt.Sprintf("L1/%d/%x", bridges, sha256.Sum256([]byte(traces[0])))[:24])
@@ -649,6 +655,12 @@ func TestC18Rapid(t *testing.T) {
 			}
 			if oracle > 0 {
 				c.Class("L2/oracle-update-with-4-pairs-applied")
+			}
+			if strings.Contains(traces[0], "=> held back") && strings.Contains(traces[0], "\noracle-late(") {
+				c.Class("L2/held-oracle-update-delivered-later")
+			}
+			if strings.Contains(traces[0], "L1 validator set of height") {
+				c.Class("L2/l1-validator-set-replaced")
 			}
 			if leaving >= 2 || oracle > 0 {
 				c.NonTrivial()
